@@ -25,7 +25,7 @@ fn spec() -> Spec {
     Spec {
         kinds: vec![
             Kind { name: "plans", quick: 220, thorough: 6_000, serial: true },
-            Kind { name: "schedules", quick: 12, thorough: 300, serial: true },
+            Kind { name: "schedules", quick: 30, thorough: 600, serial: true },
         ],
         rule: "plans: synthetic cell (coarse meshes, tool and base, non-wrapping limits) x stroke generated from joint-space seeds (landing pose, 1..4 stroke poses, parking pose) x obstacle layout (none / grazing the swept tool / blocking the stroke) x start configuration (a landing solution itself / another free posture) x check steps 5 mm..5 cm, cost limits 1..10 degrees, recursion depths 0..8, both interpolation settings; every returned plan is a history checked offline: all waypoints free and within limits, first waypoint == start, flag grammar ONBOARDING* LAND (LIN_INTERP* TRACE)^n LIN_INTERP* PARK, landing / stroke / parking poses reproduced by the reference FK in order, interpolated waypoints on the straight segment (position) and geodesic (rotation) between their anchors with non-decreasing parameter, consecutive Cartesian waypoints within the cost limit, no LIN_INTERP waypoint unless requested; sections the hook reports as closed by RRT are only checked for collisions/limits. schedules: the same deterministic scenario (start = landing solution, no RRT gap closing) in rayon pools 1,2,4,16 x spy delays x repeats must succeed or fail identically. non-trivial = plan returned with >= 1 interpolated Cartesian waypoint (or, without interpolation, >= 2 stroke poses); distinct = hash(waypoints)",
         assumptions: vec![
@@ -56,7 +56,7 @@ pub fn ref_tcp(cell: &Cell, q: &[f64; 6]) -> Fr {
     cell.base_tf.mul(&fk(&cell.robot.rp, q)).mul(&cell.tool_tf)
 }
 
-pub fn gen_scenario(rng: &mut Rng, idx: u64) -> Option<Scenario> {
+pub fn gen_scenario(rng: &mut Rng, idx: u64, for_schedules: bool) -> Option<Scenario> {
     let mut cell = Cell::generate(rng, idx, true, true, false);
     cell.constraints = Constraints::new([-3.0; 6], [3.0; 6], 0.0);
     cell.safety = if rng.bool(0.5) { SafetySpec::touch(CheckMode::FirstCollisionOnly) } else { cell.random_safety(rng, CheckMode::FirstCollisionOnly) };
@@ -91,18 +91,28 @@ pub fn gen_scenario(rng: &mut Rng, idx: u64) -> Option<Scenario> {
         return None;
     }
     let poses: Vec<Fr> = seeds.iter().map(|s| ref_tcp(&cell, s)).collect();
-    let layout = *rng.pick(&["none", "grazing", "grazing", "blocking"]);
+    // schedule scenarios: mostly an obstacle that blocks one IK branch mid-stroke while others stay free
+    let layout = if for_schedules { *rng.pick(&["branch_blocking", "branch_blocking", "branch_blocking", "none"]) } else { *rng.pick(&["none", "grazing", "grazing", "blocking", "branch_blocking", "branch_blocking"]) };
     if layout != "none" {
         let k = 1 + rng.usize(seeds.len() - 1);
-        let gap = if layout == "blocking" { -0.02 } else { cell.safety.lookup(J_TOOL, 1000).max(0.0) as f64 + rng.range(0.004, 0.02) };
-        cell.add_designed_obstacle(rng, &seeds[k], J_TOOL, gap);
-        let r2 = cell.build();
-        if r2.collides(&q_land) {
-            cell.env.pop();
+        let gap = if layout == "grazing" { cell.safety.lookup(J_TOOL, 1000).max(0.0) as f64 + rng.range(0.004, 0.02) } else { -0.02 };
+        // the tool occupies the same space in every IK branch; an obstacle at the elbow links blocks
+        // only the branch the seeds were generated on, so another landing solution may still work
+        // (several attempts: the obstacle must leave the landing posture itself free)
+        for attempt in 0..6 {
+            let target = if layout == "branch_blocking" { 1 + rng.usize(3) } else { J_TOOL };
+            let kk = if layout == "branch_blocking" { seeds.len() - 1 - (attempt % 2) } else { k };
+            cell.add_designed_obstacle(rng, &seeds[kk], target, gap);
+            let r2 = cell.build();
+            if r2.collides(&q_land) {
+                cell.env.pop();
+            } else {
+                break;
+            }
         }
     }
     let robot = cell.build();
-    let start_class = if rng.bool(0.5) { "landing_solution" } else { "other_posture" };
+    let start_class = if for_schedules || rng.bool(0.5) { "landing_solution" } else { "other_posture" };
     let from = if start_class == "landing_solution" {
         q_land
     } else {
@@ -118,6 +128,9 @@ pub fn gen_scenario(rng: &mut Rng, idx: u64) -> Option<Scenario> {
         }
         f?
     };
+    // (schedule scenarios: always sparse, so that every branch passes the continuity phase without
+    // random gap closing and only the collision check separates good from bad strategies)
+    let sparse = for_schedules || rng.usize(3) == 0;
     Some(Scenario {
         cell,
         from,
@@ -127,9 +140,12 @@ pub fn gen_scenario(rng: &mut Rng, idx: u64) -> Option<Scenario> {
         seeds,
         layout,
         start_class,
-        check_step_m: rng.logu(0.005, 0.05),
-        check_step_rad: rng.logu(0.02, 0.2),
-        max_cost: rng.range(1.0, 10.0f64).to_radians(),
+        // a third of the scenarios use check steps larger than the stroke segments (no interpolated
+        // poses are generated at all) together with a generous cost limit, so the stroke poses
+        // themselves are the only Cartesian waypoints
+        check_step_m: if sparse { rng.range(0.3, 0.6) } else { rng.logu(0.005, 0.05) },
+        check_step_rad: if sparse { rng.range(1.0, 2.0) } else { rng.logu(0.02, 0.2) },
+        max_cost: if sparse { rng.range(25.0, 45.0f64).to_radians() } else { rng.range(1.0, 10.0f64).to_radians() },
         depth: rng.usize(9),
         include_interp: rng.bool(0.6),
     })
@@ -151,9 +167,12 @@ pub struct PlanRun {
 
 pub fn run_plan(s: &Scenario, pool: Option<&rayon::ThreadPool>, delay_seed: Option<u64>) -> (PlanRun, KinematicsWithShape) {
     let cb: Option<crate::spy::Callback> = delay_seed.map(|seed| {
+        // per-thread delay pattern: whole strategies (each probed by one worker) are slowed down or
+        // not, which permutes the order in which strategies finish
         let cb: crate::spy::Callback = Box::new(move |e: &Event| {
-            let us = crate::rng::mix(seed ^ e.seq.wrapping_mul(0x9E37)) % 200;
-            if us > 20 {
+            let slow = crate::rng::mix(seed ^ e.thread) % 3 == 0;
+            let us = if slow { 150 + crate::rng::mix(seed ^ e.seq) % 100 } else { crate::rng::mix(seed ^ e.seq.wrapping_mul(0x9E37)) % 20 };
+            if us > 10 {
                 std::thread::sleep(std::time::Duration::from_micros(us));
             }
         });
@@ -183,7 +202,7 @@ pub fn run_plan(s: &Scenario, pool: Option<&rayon::ThreadPool>, delay_seed: Opti
             max_transition_cost: s.max_cost,
             transition_coefficients: DEFAULT_TRANSITION_COSTS,
             linear_recursion_depth: s.depth,
-            rrt: RRTPlanner { step_size_joint_space: 3.0f64.to_radians(), max_try: 600, debug: false },
+            rrt: RRTPlanner { step_size_joint_space: 3.0f64.to_radians(), max_try: if s.check_step_m >= 0.3 { 4000 } else { 600 }, debug: false },
             include_linear_interpolation: s.include_interp,
             debug: false,
         };
@@ -200,7 +219,7 @@ pub fn run_plan(s: &Scenario, pool: Option<&rayon::ThreadPool>, delay_seed: Opti
 }
 
 fn run_case(kind: &str, idx: u64, rng: &mut Rng, mon: &mut Mon, _tier: Tier) {
-    let s = match gen_scenario(rng, idx) {
+    let s = match gen_scenario(rng, idx, kind == "schedules") {
         Some(s) => s,
         None => {
             mon.inconclusive("no-feasible-scenario");
@@ -402,45 +421,96 @@ fn plans(idx: u64, mon: &mut Mon, s: &Scenario) {
 }
 
 fn schedules(idx: u64, rng: &mut Rng, mon: &mut Mon, s: &Scenario) {
-    // deterministic scenario: start = landing solution
+    // deterministic scenario: start = landing solution, sparse check steps (no gap closing), large RRT budget
     if s.start_class != "landing_solution" {
         mon.inconclusive("schedules:start-is-not-a-landing-solution");
         return;
     }
-    let mut outcomes: Vec<(usize, bool, bool)> = vec![];
-    let mut any_rrt = false;
+    let clone_with_from = |from: [f64; 6]| Scenario { cell: s.cell.clone(), from, land: s.land, steps: s.steps.clone(), park: s.park, seeds: s.seeds.clone(), layout: s.layout, start_class: s.start_class,
+        check_step_m: s.check_step_m, check_step_rad: s.check_step_rad, max_cost: s.max_cost, depth: s.depth, include_interp: s.include_interp };
+    let pool1 = rayon::ThreadPoolBuilder::new().num_threads(1).build().unwrap();
+    // 1. classify the landing solutions. Started AT solution S_i on a one-thread pool, S_i is probed
+    //    first and its onboarding is trivial, so "Ok with LAND == S_i" means: the Cartesian part of
+    //    strategy S_i is continuous and collision free (a deterministic fact about the scenario).
+    let robot = s.cell.build();
+    let strategies = Kinematics::inverse_continuing(&robot, &fr_to_iso(&s.land), &s.from);
+    if strategies.is_empty() {
+        mon.inconclusive("schedules:no-landing-solution");
+        return;
+    }
+    let same = |a: &[f64; 6], b: &[f64; 6]| (0..6).all(|j| (a[j] - b[j]).abs() < 1e-9);
+    let mut good: Vec<bool> = vec![];
+    for st in strategies.iter().take(8) {
+        let s2 = clone_with_from(*st);
+        let (run, robot2) = run_plan(&s2, Some(&pool1), None);
+        mon.count("schedules.classification_runs");
+        if run.rrt_closings > 0 {
+            mon.inconclusive("schedules:random-gap-closing-involved");
+            return;
+        }
+        let g = match &run.result {
+            Ok(Ok(path)) => {
+                check_plan(mon, &s2, &robot2, path, run.rrt_closings);
+                path.iter().find(|w| w.flags.contains(PathFlags::LAND)).map(|w| same(&w.joints, st)).unwrap_or(false)
+            }
+            _ => false,
+        };
+        good.push(g);
+    }
+    // 2. expectation for the scenario as given (start = S_0, the landing solution closest to itself)
+    mon.count(if good[0] { "schedules.class.closest_solution_good" } else if !good.iter().any(|g| *g) { "schedules.class.no_solution_good" } else { "schedules.class.closest_bad_other_good" });
+    let expected: bool = if good[0] {
+        true
+    } else if !good.iter().any(|g| *g) {
+        false
+    } else {
+        // S_0 is bad, another solution G is good: success needs the random relocation S_0 -> G. It is
+        // taken as certain (with the 4000-try budget of the real runs) only if it succeeds five times
+        // in a row with a 200-try budget (if a 200-try attempt succeeds with probability s, all five
+        // succeed with s^5 and a 4000-try attempt fails with about (1-s)^20: jointly below 1e-4).
+        let planner = RRTPlanner { step_size_joint_space: 3.0f64.to_radians(), max_try: 200, debug: false };
+        let stop = std::sync::atomic::AtomicBool::new(false);
+        let all_ok = (0..good.len()).filter(|i| good[*i]).any(|gi| (0..5).all(|_| planner.plan_rrt(&s.from, &strategies[gi], &robot, &stop).is_ok()));
+        if !all_ok {
+            mon.inconclusive("schedules:relocation-to-the-good-solution-is-not-certain");
+            return;
+        }
+        mon.count("schedules.closest_solution_bad_other_good");
+        true
+    };
+    // 3. the scenario itself under pools x repeats x per-thread delays
+    let mut outcomes: Vec<(usize, bool)> = vec![];
     for pool_size in [1usize, 2, 4, 16] {
         let pool = rayon::ThreadPoolBuilder::new().num_threads(pool_size).build().unwrap();
         for rep in 0..3 {
-            let (run, robot) = run_plan(s, Some(&pool), if rep == 0 { None } else { Some(rng.next_u64()) });
+            let (run, robot2) = run_plan(s, Some(&pool), if rep == 0 { None } else { Some(rng.next_u64()) });
             mon.count("schedules.runs");
-            let ok = matches!(run.result, Ok(Ok(_)));
             if run.rrt_closings > 0 {
-                any_rrt = true;
+                mon.inconclusive("schedules:random-gap-closing-involved");
+                return;
             }
+            let ok = matches!(run.result, Ok(Ok(_)));
             if let Ok(Ok(path)) = &run.result {
-                // which strategy won
                 let land = path.iter().find(|w| w.flags.contains(PathFlags::LAND)).map(|w| format!("{:x}", hash_f64s(&w.joints) & 0xffff)).unwrap_or_default();
                 mon.seen("winning_strategies", format!("case{}:{}", idx, land));
-                check_plan(mon, s, &robot, path, run.rrt_closings);
+                check_plan(mon, s, &robot2, path, run.rrt_closings);
             }
             mon.seen("strategies_started_per_run", format!("pool{}:{}", pool_size, run.strategies_started));
-            outcomes.push((pool_size, ok, run.rrt_closings > 0));
+            outcomes.push((pool_size, ok));
         }
     }
-    if any_rrt {
-        mon.inconclusive("schedules:random-gap-closing-involved");
-        return;
-    }
-    let first = outcomes[0].1;
-    if outcomes.iter().any(|o| o.1 != first) {
-        mon.violation("schedule-dependent-success", "whether planning succeeds differs between thread pool sizes / schedules although no random re-planning was involved", json!({"scenario": scenario_json(s), "outcomes": outcomes.iter().map(|o| json!([o.0, o.1])).collect::<Vec<_>>()}));
+    if outcomes.iter().any(|o| o.1 != expected) {
+        mon.violation(
+            &format!("schedule-dependent-success:expected-{}", if expected { "ok" } else { "err" }),
+            "planning outcome differs from what the landing solutions determine (some thread pool size / schedule fails although a continuous collision-free strategy is reachable, or succeeds although none exists)",
+            json!({"scenario": scenario_json(s), "strategy_is_good": good, "expected_ok": expected, "outcomes": outcomes.iter().map(|o| json!([o.0, o.1])).collect::<Vec<_>>()}),
+        );
     } else {
         mon.held_n(outcomes.len() as u64);
-        mon.nontrivial(hash_combine(idx, first as u64 + 17));
-        mon.count(if first { "schedules.consistently_ok" } else { "schedules.consistently_err" });
+        mon.nontrivial(hash_combine(idx, expected as u64 + 17));
+        mon.count(if expected { "schedules.consistently_ok" } else { "schedules.consistently_err" });
     }
     if idx < 1 {
-        mon.sample(json!({"kind": "schedules", "pools": [1, 2, 4, 16], "repeats": 3, "outcome_ok": first}));
+        mon.sample(json!({"kind": "schedules", "pools": [1, 2, 4, 16], "repeats": 3, "strategy_is_good": good, "expected_ok": expected}));
     }
 }
